@@ -1497,6 +1497,17 @@ impl<'r> G<'r> {
         let name = self.fresh(false);
         let nports = self.r.range(0, 4);
         let ansi = self.r.chance(3, 5);
+        if self.r.chance(1, 8) {
+            // A.1.2: { attribute_instance } in front of the design element
+            self.sym("(*");
+            let a = self.fresh(false);
+            self.id(&a);
+            if self.r.chance(1, 2) {
+                self.sym("=");
+                self.num("1");
+            }
+            self.sym("*)");
+        }
         self.kw(kw);
         if self.r.chance(1, 8) {
             self.kwp(&["automatic", "static"]);
